@@ -59,7 +59,7 @@ def corpus(seed, n, circles):
             keys.append((i % 3, d, 'white', 'black', 8.0))   # entries 0,1,2: the settings are the defaults
         else:
             # the settings entry point with settings that differ from call to call
-            keys.append((3, d, rng.choice(colors), rng.choice(colors), rng.choice([8.0, 8.0, 1.0, 20.0])))
+            keys.append((rng.choice([3, 3, 5]), d, rng.choice(colors), rng.choice(colors), rng.choice([8.0, 8.0, 1.0, 20.0])))
     return keys
 
 
@@ -245,7 +245,7 @@ def execute(run):
     ref = []
     for entry, doc, bg, fill, scale in keys:
         # every key of the reference is converted in its own fresh process: no history at all
-        if entry == 3:
+        if entry >= 3:
             d.restart()
         r = d.conv(doc, entry=entry, flags=7, bg=bg, fill=fill, scale=scale)
         ref.append(r.out.encode('utf-8', 'surrogateescape') if r.ok else b'PANIC ' + r.out.encode())
